@@ -87,7 +87,7 @@ class SimChannel:
             if ep is src or ep.deaf:
                 continue
             if inline and ep.accept_inline:
-                ep.deliver(can_id, data, rtr, ext, ctx.now / SEC)
+                ep.dispatch(can_id, data, rtr, ext, ctx.now / SEC)
                 continue
             for delay, repl in self.transport.route(fr, ep):
                 t = end + delay
@@ -240,9 +240,11 @@ class SimBus(Endpoint, can.BusABC):
         if ctx.threaded and ch.unsafe_driver:
             # a driver that is not thread-safe: the frame goes through a shared
             # TX slot in two steps with a scheduling point in between
-            ch._tx_slot = (msg.arbitration_id, bytes(msg.data))
+            # (one slot per bus object: different Network objects have their
+            # own driver instance and their own send_lock)
+            self._tx_slot = (msg.arbitration_id, bytes(msg.data))
             ctx.tick(US)
-            can_id, data = ch._tx_slot
+            can_id, data = self._tx_slot
             ch.transmit(self, can_id, data, msg.is_remote_frame, msg.is_extended_id)
             return
         # a bounded TX queue paces the sender: send() returns only when the
@@ -278,11 +280,18 @@ class SimBus(Endpoint, can.BusABC):
     # -- delivery ------------------------------------------------------
     def deliver(self, can_id, data, rtr, ext, ts, error=False):
         ctx = self.channel_obj.ctx
-        if ctx.threaded and self.rx_queue is not None and ctx.current is None:
-            # scheduler context: hand over to the receive task
+        if ctx.threaded and self.rx_queue is not None:
+            # hand over to the receive task of this endpoint
             self.rx_queue.append((can_id, data, rtr, ext, ts, error))
             return
         self.dispatch(can_id, data, rtr, ext, ts, error)
+
+    def start_rx_task(self):
+        import collections
+        ctx = self.channel_obj.ctx
+        self.rx_queue = collections.deque()
+        t = ctx.spawn("rx-" + self.name, self.rx_task_body, daemon_task=True)
+        return t
 
     def dispatch(self, can_id, data, rtr, ext, ts, error=False):
         net = self.network
